@@ -147,6 +147,15 @@ impl Engine {
         Engine { native, forms, ungenerated, allow, floor, info: InstructionInfoFactory::new() }
     }
 
+    /// Emulator-only engine: no arenas are mapped and no signal handler is installed; `run` must be
+    /// called with `want_native = false`.
+    pub fn new_emu_only() -> Engine {
+        let (forms, ungenerated) = insn::candidate_forms();
+        let allow = forms.iter().map(|f| f.code).collect();
+        let floor = insn::load_floor().into_iter().collect();
+        Engine { native: Native::none(), forms, ungenerated, allow, floor, info: InstructionInfoFactory::new() }
+    }
+
     pub fn form_indices(&self, pred: impl Fn(&Form) -> bool) -> Vec<usize> {
         self.forms.iter().enumerate().filter(|(_, f)| pred(f)).map(|(i, _)| i).collect()
     }
